@@ -19,6 +19,9 @@ type State struct {
 	Tuples []Tuple // stored ∪ contextual, de-duplicated by key (contextual wins)
 	byOR   map[string][]int
 	Extra  []string // further objects of the universe (e.g. the object of a userset subject)
+	// NoReflexive switches off "a userset subject is a member of itself" (diagnostic only: used to
+	// tell whether an answer rests on that rule alone).
+	NoReflexive bool
 }
 
 // WithExtra adds objects to the universe of candidate objects (returns s).
@@ -195,7 +198,7 @@ func (e *evalCtx) evalRewrite(o, rel string, rw *Rewrite, definite bool, cur, ot
 
 func (e *evalCtx) lookup(o, r string, set map[atom]bool) bool {
 	// reflexive: a userset subject is a member of itself
-	if e.subj == o+"#"+r {
+	if e.subj == o+"#"+r && !e.s.NoReflexive {
 		return true
 	}
 	return set[atom{o, r}]
@@ -242,6 +245,7 @@ type Solution struct {
 	T, P       map[atom]bool
 	AnyCondErr bool
 	subj       string
+	noReflexive bool
 }
 
 // Solve computes the alternating fixpoint (well-founded model; = perfect model for stratified
@@ -284,7 +288,7 @@ func (s *State) solve(subj string, reqCtx map[string]any, forced map[int]CondOut
 		}
 		T, P = T2, P2
 	}
-	return &Solution{T: T, P: P, AnyCondErr: e.anyCondErr, subj: subj}
+	return &Solution{T: T, P: P, AnyCondErr: e.anyCondErr, subj: subj, noReflexive: s.NoReflexive}
 }
 
 func sameSet(a, b map[atom]bool) bool {
@@ -301,7 +305,7 @@ func sameSet(a, b map[atom]bool) bool {
 
 // Holds returns the Kleene value of (o, r, subject).
 func (sol *Solution) Holds(o, r string) K {
-	if sol.subj == o+"#"+r {
+	if sol.subj == o+"#"+r && !sol.noReflexive {
 		return True
 	}
 	a := atom{o, r}
@@ -466,11 +470,11 @@ func (s *State) SwallowedBySibling(reqCtx map[string]any, idx []int) bool {
 				found = true
 			}
 		}
-		if !found {
-			return false
+		if found {
+			return true // one swallowed tuple cuts the whole branch below it
 		}
 	}
-	return true
+	return false
 }
 
 // DiffSubtrahendReachesCycle reports whether, starting from (o, r), evaluation can reach a
